@@ -145,6 +145,20 @@ def run(res):
     for e in known_findings("C16"):
         if e.get("id") == "F-C16-anchored-subdir" and kbad == ["BAD selected-but-not-processed:a/b/x.lua known-anchored-subdir"]:
             res.known.append(e["what"]); kbad = []
+    # a second listed class, outside the generated scenarios (they pass no --glob): a user glob that matches a file overrides the
+    # file's own .styluaignore entry.  One witness, read off the bytes of the ignored file.
+    wroot = scratch("c16glob")
+    try:
+        os.makedirs(os.path.join(wroot, "src"))
+        for f in ("src/a.lua", "src/skip.lua"): open(os.path.join(wroot, f), "w").write(UNF)
+        open(os.path.join(wroot, ".styluaignore"), "w").write("src/skip.lua\n")
+        stylua(["--glob", "**/*.lua", "."], wroot)
+        if open(os.path.join(wroot, "src/skip.lua")).read() != UNF:
+            kf = [e for e in known_findings("C16") if e.get("id") == "F-C16-glob-overrides-ignore-entry"]
+            if kf: res.known.append(kf[0]["what"])
+            else: kbad.append("BAD not-selected-but-processed:src/skip.lua glob-overrides-ignore-entry")
+    finally:
+        cleanup(wroot)
     results = pmap(run_scn, scs)
     lines = [l for recs, _ in results for l in recs]
     r = subprocess.run([driver("drv_c16")], input="\n".join(lines) + "\n", stdout=subprocess.PIPE, stderr=subprocess.PIPE, text=True)
